@@ -12,7 +12,7 @@ Import ListNotations.
 Require Import Fggs.Model.Conj Fggs.Proofs.ConjBase.
 Require Import Fggs.Model.TreeDec Fggs.Proofs.TreeDec_graph Fggs.Proofs.TreeDec_tdok Fggs.Model.Factorize
                Fggs.Proofs.Fz_rooted Fggs.Proofs.Fz_struct Fggs.Proofs.Fz_main Fggs.Proofs.Fz_final
-               Fggs.Proofs.Fz_post Fggs.Proofs.Fz_glue.
+               Fggs.Proofs.Fz_bridge Fggs.Proofs.Fz_inline Fggs.Proofs.Fz_post Fggs.Proofs.Fz_glue.
 Require Import Fggs.Model.Semiring Fggs.Model.SCC Fggs.Model.SumProduct.
 Require Import Fggs.Proofs.SCC_ntgraph Fggs.Proofs.BigSum Fggs.Proofs.SP_trees Fggs.Proofs.SP_nonrec
                Fggs.Proofs.SP_main Fggs.Proofs.SP_unfold Fggs.Proofs.Fz_embed Fggs.Proofs.Fz_treeval
@@ -98,9 +98,6 @@ Definition wf_fhrg (g : fhrg) : Prop :=
     /\ forall e, In e (fr_edges r) -> In (fe_lab e) (fh_elabels g).
 Definition ids_are_positions (g : fhrg) : Prop :=
   forall r, In r (fh_all_rules g) -> fr_ids r = seq 0 (length (fr_nodes r)).
-(** no node label used by a rule has an empty domain *)
-Definition doms_pos (doms : list nat) (g : fhrg) : Prop :=
-  forall r, In r (fh_all_rules g) -> forall l, In l (map snd (fr_nodes r)) -> 0 < nth l doms 0.
 
 Lemma wf_grammar_wf_fhrg doms g :
   wf_grammar (to_sp_grammar doms g) = true -> ids_are_positions g -> wf_fhrg g.
@@ -160,7 +157,7 @@ Proof.
   - rewrite sel_glob by trivial. exact Hs.
 Qed.
 
-Theorem sum_product_rule_all r t ords labels front last ls G lab (e' : env (R:=R)) :
+Lemma sum_product_rule_pos r t ords labels front last ls G lab (e' : env (R:=R)) :
   Fz_final.wf_rule r -> fr_ids r = seq 0 (length (fr_nodes r)) ->
   ftd_wfb t = true -> valid_td (primal r) (td_of_ftd t) ->
   factorize_rule_model r labels t ords = Ok (front ++ [last], ls) ->
@@ -193,6 +190,86 @@ Proof.
     apply nat_list_eqb_iff in Hs.
     destruct (sum_product_rule o Hr r t ords labels _ ls G lab e' W Hids WF V H) as (f' & l' & E & HV).
     apply app_inj_tail in E. destruct E as [<- <-]. rewrite <- Hs. now apply HV.
+Qed.
+(** ** an empty domain: everything is zero *)
+Lemma all_assts_zero sizes : In 0 sizes -> all_assts sizes = [].
+Proof.
+  induction sizes as [|n rest IH]; [intros []|]. intros [->|H]; cbn [all_assts]; [reflexivity|].
+  rewrite (IH H). induction (seq 0 n) as [|i l IHl]; [reflexivity|]. cbn [flat_map map app]. exact IHl.
+Qed.
+
+Lemma sub_rule_empty_dom G labels bag lhs edges X (e : env (R:=R)) xi x :
+  (forall v, In v bag -> v < length labels) -> In x bag -> dom G (nth x labels 0) = 0 ->
+  rule_val o G e (sub_rule labels lhs bag edges X) xi = zero o.
+Proof.
+  intros Bn Hx D. unfold rule_val. rewrite sub_sizes by exact Bn.
+  rewrite all_assts_zero; [cbn [filter]; apply sumS_nil|].
+  apply in_map_iff. exists x. split; trivial. rewrite sizes_nth by (now apply Bn). exact D.
+Qed.
+
+(** a node with an empty domain somewhere in the subtree makes the subtree's rule zero, in every
+    environment that solves the equations of the fresh nonterminals below *)
+Lemma tree_zero r t ords nm G lab (e' : env (R:=R)) x :
+  fr_ids r = seq 0 (length (fr_nodes r)) ->
+  dom G (nth x (map snd (fr_nodes r)) 0) = 0 ->
+  forall T parent, (forall j v, In j (rt_indices T) -> In v (bag_of t j) -> v < length (fr_nodes r)) ->
+    eqs_ok o r t ords nm G lab e' T -> occurs t x T ->
+    forall zeta, rule_val o G e' (tr lab (Fz_inline.root_rule r t ords nm T parent)) zeta = zero o.
+Proof.
+  intros Hids D. induction T as [i cs IH] using rt_ind'. intros parent B Eq (j & Hj & Hx) zeta.
+  rewrite Forall_forall in IH. unfold Fz_inline.root_rule. cbn [rt_root rt_kids].
+  assert (Bi : forall v, In v (bag_of t i) -> v < length (fr_nodes r)).
+  { intros v Hv. apply (B i v); [rewrite rt_indices_eq; now left|exact Hv]. }
+  rewrite (tr_mk r lab Hids _ _ _ _ Bi).
+  rewrite rt_indices_eq in Hj. destruct Hj as [<-|Hj].
+  - apply (sub_rule_empty_dom _ _ _ _ _ _ _ _ x); trivial. intros v Hv. rewrite map_length. now apply Bi.
+  - apply in_flat_map in Hj. destruct Hj as (c & Hc & Hj).
+    inversion Eq as [i0 cs0 E1 E2]; subst.
+    assert (Z : forall zeta', e' (lab (nm (rt_root c))) zeta' = zero o).
+    { intro zeta'. rewrite (E2 c zeta' Hc). apply (IH c Hc (Some i)).
+      - intros j' v Hj' Hv. apply (B j' v); trivial. rewrite rt_indices_eq. right. apply in_flat_map. eauto.
+      - now apply E1.
+      - exists j. auto. }
+    unfold rule_val. apply (sumS_all_zero o Hr). intros a _. cbn [r_edges sub_rule].
+    apply (prodS_zero o Hr) with (x := (lab (nm (rt_root c)), map (fun v => index_of v (bag_of t i)) (nth (rt_root c) ords []))).
+    + apply in_map_iff. exists (lab (nm (rt_root c)), nth (rt_root c) ords []). split; [reflexivity|].
+      apply in_map_iff. exists (new_edge (nm (rt_root c)) (nth (rt_root c) ords [])). split; [reflexivity|].
+      apply in_or_app. right. unfold kid_edges. now apply (in_map (fun c => new_edge (nm (rt_root c)) (nth (rt_root c) ords []))).
+    + cbn [fst]. apply Z.
+Qed.
+
+Theorem sum_product_rule_all r t ords labels front last ls G lab (e' : env (R:=R)) :
+  Fz_final.wf_rule r -> fr_ids r = seq 0 (length (fr_nodes r)) ->
+  ftd_wfb t = true -> valid_td (primal r) (td_of_ftd t) ->
+  factorize_rule_model r labels t ords = Ok (front ++ [last], ls) ->
+  (forall c, In c front -> forall zeta, e' (lab (fr_lhs c)) zeta = rule_val o G e' (tr lab c) zeta) ->
+  forall xi, rule_val o G e' (tr lab last) xi = rule_val o G e' (tr lab r) xi.
+Proof.
+  intros W Hids WF V H Heq xi.
+  destruct (existsb (fun l => dom G l =? 0) (map snd (fr_nodes r))) eqn:EX.
+  - apply existsb_exists in EX. destruct EX as (l0 & Hl0 & D). apply Nat.eqb_eq in D.
+    apply (In_nth _ _ 0) in Hl0. destruct Hl0 as (x & Hx & El0). rewrite <- El0 in D. clear El0 l0.
+    assert (RHS : rule_val o G e' (tr lab r) xi = zero o).
+    { unfold rule_val. change (node_sizes G (tr lab r)) with (map (dom G) (map snd (fr_nodes r))).
+      rewrite all_assts_zero; [cbn [filter]; apply sumS_nil|]. apply in_map_iff. eexists. split; [exact D|].
+      now apply nth_In. }
+    rewrite RHS. destruct W as (NDi & A & Ext).
+    destruct (find_root (fr_ext r) t 0) as [root|] eqn:FR;
+      [|unfold factorize_rule_model, factorize_rule_from in H; rewrite FR in H; discriminate].
+    destruct (Fz_bridge.valid_rooted r t WF V root NDi A Ext FR) as (T & RV).
+    destruct (model_output r t ords labels root T _ ls FR RV H) as (nm & Ers & _).
+    destruct T as [i cs]. rewrite rules_of_rt_eq in Ers. apply app_inj_tail in Ers. destruct Ers as [Ef El]. subst front last.
+    pose proof (rr_valid r t root _ RV) as Vt.
+    change (mk_rule r (nm i) (bag_of t i) (place_edges r (bag_of t i) (pbag t None) ++ kid_edges ords nm cs) (ext_at r ords None i))
+      with (Fz_inline.root_rule r t ords nm (RT i cs) None).
+    apply (tree_zero r t ords nm G lab e' x Hids D).
+    + intros j v Hj Hv. pose proof (rv_bags_sub r t _ Vt j v Hj Hv) as Hin. rewrite Hids in Hin. apply in_seq in Hin. lia.
+    + apply (eqs_from o r t ords nm G lab e'). exact Heq.
+    + apply (rv_vertex r t _ Vt). rewrite Hids. apply in_seq. rewrite map_length in Hx. lia.
+  - apply (sum_product_rule_pos r t ords labels front last ls G lab e' W Hids WF V H); trivial.
+    intros l Hl. destruct (Nat.eq_dec (dom G l) 0) as [E|E]; [|lia]. exfalso.
+    assert (existsb (fun l => dom G l =? 0) (map snd (fr_nodes r)) = true); [|congruence].
+    apply existsb_exists. exists l. split; trivial. now apply Nat.eqb_eq.
 Qed.
 End ValueAll.
 
@@ -298,7 +375,6 @@ Section Refines.
 Variables (doms : list nat) (g g' : fhrg) (cs : list call).
 Hypothesis SP : fz_spec g g' cs.
 Hypothesis WFG : wf_fhrg g.
-Hypothesis POS : doms_pos doms g.
 
 Let tbl := fh_elabels g.
 Let tbl' := fh_elabels g'.
@@ -470,7 +546,6 @@ Proof.
   etransitivity; [|exact (orig_rule_same _ xi Hin)].
   destruct (fs_calls _ _ _ SP y Hy) as (labels' & t & ords & ls' & _ & WF & V & H).
   apply (sum_product_rule_all o Hr (c_rule y) t ords labels' (c_front y) (c_last y) ls' G' (lab_idx tbl') e' W Hids WF V H).
-  - intros l Hl'. unfold dom, G', to_sp_grammar. cbn [g_doms]. now apply (POS _ Hin).
   - intros c Hc zeta. destruct (front_key y c Hy Hc) as (_ & Hge & Tc).
     change (lab_idx tbl' (fr_lhs c)) with (key tbl' c). unfold e' at 1. rewrite Tc.
     rewrite (FE _ Hge Tc zeta). unfold step. rewrite Tc. fold e'.
